@@ -559,3 +559,23 @@ func canonField(st *types.Struct, i int) string {
 
 // CanonField is canonField for rule tables.
 func CanonField(st *types.Struct, i int) string { return canonField(st, i) }
+
+// ResolveBoundary follows a value across the helper boundaries the current rule may see
+// through (a bound predicate parameter, a parameter of a helper inside the rule's root).
+func ResolveBoundary(v ssa.Value) ssa.Value { return resolveBoundary(v) }
+
+// TypePkgPath: the import path of the package that declares the (pointed-to) named type.
+func TypePkgPath(t types.Type) string {
+	t = deref(t)
+	switch n := t.(type) {
+	case *types.Named:
+		if n.Obj().Pkg() != nil {
+			return n.Obj().Pkg().Path()
+		}
+	case *types.Alias:
+		if n.Obj().Pkg() != nil {
+			return n.Obj().Pkg().Path()
+		}
+	}
+	return ""
+}
